@@ -92,6 +92,7 @@ func c18(r *core.Run) {
 	r.Rule("C18/R3", "delete is recipient-only: the inbox (leading) component of the deleted key ⊵ signer only")
 	r.Rule("C18/R4", "the only handler that writes Notification-typed records is notifications.MsgCreateNotification")
 	r.Rule("C18/R6", "success implies the effect: a successful create has written the notification, a successful delete has deleted it")
+	r.Rule("C18/R9", "blocking acts when a notification is sent, never afterwards: the block list is consulted (the block predicate, or a Has on a block key) only on the CreateNotification path — no query, listing or deletion filters what is already in an inbox by the recipient's current block list")
 	r.Rule("C18/R8", "what is stored is what was sent: the notifications record setters marshal their parameter unmodified and write on every path, and the module's key builders write each parameter into the key exactly once")
 	r.Rule("C18/R7", "every listed sender is blocked: the loop over msg.ToBlock that writes the block entries is left only when the list is exhausted or by a failing return")
 	r.Rule("C18/R5", "the inbox listing iterates the prefix '<address>/' and notification keys start with '<to>/'")
@@ -101,6 +102,43 @@ func c18(r *core.Run) {
 	if err != nil {
 		r.Undecided("C18/R2", "handlers", "", err.Error())
 		return
+	}
+	// R9: who may consult the block list
+	{
+		allowed := map[*ssa.Function]bool{}
+		if hc := core.HandlerByKey(hs, "notifications.MsgCreateNotification"); hc != nil {
+			for _, f := range p.Summary(hc.Fn).Funcs {
+				allowed[f] = true
+			}
+		}
+		nUse := 0
+		for _, fn := range moduleFuncs(p, "notifications") {
+			if p.IsGenerated(fn) || blockPredicate(p, fn) {
+				continue
+			}
+			uses := ""
+			allInstrs(fn, func(in ssa.Instruction) {
+				if c, ok := in.(ssa.CallInstruction); ok {
+					for _, cal := range p.Callees(c) {
+						if blockPredicate(p, cal) {
+							uses = p.InstrPos(in)
+						}
+					}
+				}
+			})
+			for _, o := range p.StoreOps(fn) {
+				// a Has on a block key (owner/blocked: two components; notification keys have three)
+				if o.Kind == "Has" && o.Module+"/"+o.Prefix == ntfPrefix && len(p.KeyComponents(o.Key, o.Instr)) == 2 {
+					uses = p.InstrPos(o.Instr)
+				}
+			}
+			if uses == "" {
+				continue
+			}
+			nUse++
+			r.Check(allowed[fn], "C18/R9", core.FnName(fn)+":block-list-consulted-only-when-sending", uses, "on the CreateNotification path", "the recipient's block list is consulted outside the sending of a notification: a listing, query or deletion that looks at the current block list hides (or treats differently) entries that were delivered before the sender was blocked")
+		}
+		r.Floor("C18/R9", nUse, 1, "uses of the block predicate")
 	}
 	h := core.HandlerByKey(hs, "notifications.MsgCreateNotification")
 	if h == nil {
